@@ -319,6 +319,10 @@ def scenario_task(task: tuple) -> dict:
         _thx.install_copy_points(enabled=cfg != "cached")
         sc = Scenario(cfg, "std", build_programs(names), mods)
         engine = "thx"
+    if cfg not in SIMFS_CONFIGS:
+        from . import simfs as _simfs
+
+        _simfs.uninstall()  # a pool worker may have run a SimFS scenario before: no patched module may linger
     outcomes: set = set()
     first = {"done": False}
 
